@@ -2,6 +2,7 @@ package props
 
 import (
 	"fmt"
+	"github.com/mlange-42/arche/ecs"
 	"strings"
 
 	"verifharness/runner"
@@ -374,7 +375,11 @@ func init() {
 			job(sc(sim.RelCfg("c10-rel-r0-k3-single", 1, 3, 0, 8, fBld|fMove|fRel|fRet|fRelX|fIll, oBasic).P("C10")), pick(tier, 4, 6), 2),
 			job(sc(sim.Rel2Cfg("c10-rel2-k3-single", 3, 0, 8, fBld|fMove|fRel|fRet|fRelX|fIll, oBasic).P("C10")), pick(tier, 4, 5), 2),
 			job(sc(sim.CoreCfg("c10-core-k3", 3, 1, nil, fMove|fVal|fBNew|fBExch|fReg|fIll|fQ, oBasic).P("C10")), pick(tier, 4, 6), 2),
-			job(sc(sim.RelCfg("c10-rel-k3-batch-reg", 0, 3, 0, 8, fBld|fBNew|fBSet|fBExch|fBRem|fRelX|fReg|fReset|fIll|fQ, oBasic).P("C10")), pick(tier, 4, 5), 2),
+			job(sc(func() *sim.Cfg {
+				c := sim.RelCfg("c10-rel-k3-batch-reg", 0, 3, 0, 8, fBld|fBNew|fBSet|fBExch|fBRem|fRelX|fReg|fReset|fIll|fQ|fVal, oBasic)
+				c.BatchRefs = []int{0, 4, 5, 6} // also All() and All(A): batches over tables without the relation component
+				return c.P("C10")
+			}()), pick(tier, 4, 5), 2),
 			// illegal accessor calls on open queries (Relation for a component that is not the entity's relation component)
 			job(sc(sim.Rel2Cfg("c10-rel2-k3-query-accessors", 3, 0, 8, fBld|fMove|fRel, oDeep).P("C10")), pick(tier, 3, 4), 1),
 			// illegal calls in a locked world, rejected registrations, out-of-range query indices (also decided by C09)
@@ -387,6 +392,7 @@ func init() {
 		ev := c16Bijection(rp)
 		rp.Trans += ev
 		fmt.Printf("  type limit: %d registry look-ups around 0..limit+1 registrations (components and resources)\n", ev)
+		c10Construction(rp)
 	}
 
 	// ------------------------------------------------------------------ C11 events
@@ -417,4 +423,35 @@ func itoa(i int) string {
 		return string(rune('0' + i))
 	}
 	return string(rune('0'+i/10)) + string(rune('0'+i%10))
+}
+
+// c10Construction: illegal world construction.
+func c10Construction(rp *runner.Report) {
+	// illegal world construction
+	for _, c := range []struct {
+		name string
+		f    func()
+	}{
+		{"NewWorld with two Config values", func() { ecs.NewWorld(ecs.NewConfig(), ecs.NewConfig()) }},
+		{"NewWorld with capacity increment 0", func() { ecs.NewWorld(ecs.NewConfig().WithCapacityIncrement(0)) }},
+		{"NewWorld with capacity increment -1", func() { ecs.NewWorld(ecs.NewConfig().WithCapacityIncrement(-1)) }},
+	} {
+		rp.Trans++
+		if catchP(c.f) == nil {
+			rp.Violation(&runner.ReplayFile{Scenario: "c10-construction", Sig: "nopanic:" + c.name, Kind: "c10misc",
+				Msg: c.name + " did not panic", OpsText: []string{c.name}})
+		}
+	}
+}
+
+func init() {
+	replayers["c10misc"] = func(rf *runner.ReplayFile) int {
+		rp := runner.NewReport("C10", "quick")
+		c10Construction(rp)
+		if len(rp.Violations) > 0 {
+			return 1
+		}
+		fmt.Println("no failure")
+		return 0
+	}
 }
